@@ -362,7 +362,10 @@ def mala(
         drift = (step_size**2 / 2.0) * grad_val
 
         # Gaussian noise term: step_size * N(0,1)
-        noise = step_size * normal.sample(0.0, 1.0)
+        # One independent standard-normal draw per coordinate of the address
+        noise = step_size * normal.sample(
+            0.0, 1.0, sample_shape=jnp.shape(current_val)
+        )
 
         # Proposed value
         return current_val + drift + noise
@@ -482,13 +485,15 @@ def hmc(
     )
 
     # Helper functions for momentum
-    def sample_momentum(_):
+    def sample_momentum(position_val):
         """Sample momentum with same structure as reference value."""
-        return normal.sample(0.0, 1.0)
+        # One independent standard-normal momentum per coordinate of the address
+        return normal.sample(0.0, 1.0, sample_shape=jnp.shape(position_val))
 
     def assess_momentum(momentum_val):
         """Compute log probability of momentum (standard normal)."""
-        return normal.logpdf(momentum_val, 0.0, 1.0)
+        # Sum over the coordinates of the address (scalar kinetic energy term)
+        return jnp.sum(normal.logpdf(momentum_val, 0.0, 1.0))
 
     # Initial model score (negative potential energy)
     prev_model_score = log_density_wrt_selected(selected_choices)
